@@ -147,6 +147,23 @@ Fixpoint lookup (n : node) (p : path) : option node :=
       end
   end.
 
+(* a file system: sibling names distinct, none of them "", "." or "..", hereditarily
+   (executable form of the well-formedness hypothesis of the theorems) *)
+Definition name_okb (s : string) : bool :=
+  negb (String.eqb s "") && negb (String.eqb s ".") && negb (String.eqb s "..").
+Fixpoint nodupb (l : list string) : bool :=
+  match l with
+  | [] => true
+  | x :: r => negb (existsb (String.eqb x) r) && nodupb r
+  end.
+Fixpoint wf_nodeb (n : node) : bool :=
+  match n with
+  | File _ _ _ => true
+  | Dir _ ch =>
+      nodupb (map node_name ch) && forallb (fun c => name_okb (node_name c)) ch
+      && forallb wf_nodeb ch
+  end.
+
 (* ------------------------------------------------------------------ configuration *)
 Record config : Type := {
   c_root : node;                               (* the node of "/" *)
@@ -376,6 +393,13 @@ Section Model.
                     (if c_recurse cfg then below n else children_of n))
     | None => []
     end.
+
+  (* the input directory and every include directory exist and are directories *)
+  Definition dirs_okb (cfg : config) : bool :=
+    forallb (fun i => match lookup (c_root cfg) (to_abs (c_cwd cfg) (fst i)) with
+                      | Some (Dir _ _) => true
+                      | _ => false
+                      end) (include_paths cfg).
 
   Definition spec_includes (cfg : config) : list path :=
     map (fun i => to_abs (c_cwd cfg) (fst i)) (include_paths cfg).
